@@ -24,6 +24,7 @@ type Scenario struct {
 	Scribble bool     `json:"scribble"`
 	Reset    bool     `json:"reset_between_docs,omitempty"`
 	ReEnable []int    `json:"enable_key_cache_again_before_doc,omitempty"` // capacity per document index, -1 = no call
+	Note     string   `json:"note,omitempty"`
 }
 
 type Engine struct{}
@@ -43,9 +44,14 @@ func newKeyGen(c *simkit.Choices) *keyGen {
 	g := &keyGen{c: c}
 	// key alphabets are structured so that any shortcut in the cache lookup
 	// (prefix, suffix, length, hash of a part) makes two keys collide
-	mode := c.N(11)
+	mode := c.N(12)
 	if mode == 10 && c.N(3) != 0 {
 		mode = c.N(10) // very long keys are expensive: a third of their share
+	}
+	var colliding [][2]string
+	if mode == 11 {
+		colliding = collidingKeys[collidingHashes[c.N(len(collidingHashes))]]
+		n = 2 + c.N(7)
 	}
 	if mode == 10 && n > 3 {
 		n = 3
@@ -89,6 +95,8 @@ func newKeyGen(c *simkit.Choices) *keyGen {
 			default:
 				k = strings.Repeat("\x00", 8-i/4%8)
 			}
+		case 11: // pairs of equal-length keys with equal values of a common 32-bit hash
+			k = colliding[i/2%len(colliding)][i%2]
 		case 10: // very long keys sharing everything but the tail (block / length limits)
 			k = strings.Repeat("k", long) + string(rune('a'+i))
 		case 6: // single bytes, incl. 0x80-0xff (not valid UTF-8: Latin-1 / binary keys)
@@ -256,7 +264,89 @@ func run(sc *Scenario, docs [][]byte, te *model.TypeEntry, cd *common.Codec, cap
 	return
 }
 
+// wide: more distinct keys than an 8- or 16-bit index can number, on a cache
+// large enough to hold them all (or just not), then early keys again.
+func wide(c *simkit.Choices, x *simkit.Ctx) *simkit.Violation {
+	st := x.Stats
+	n := []int{255, 256, 257, 300}[c.N(4)]
+	if c.N(24) == 0 {
+		n = []int{65535, 65536, 65537, 66000}[c.N(4)]
+		st.Probe("more-than-65535-distinct-keys")
+	}
+	capacity := []int{n - 1, n, n + 1, 2 * n, 1 << 17}[c.N(5)]
+	f := model.Formats[c.N(3)]
+	cd := common.ByName(f)
+	te := model.TypeByName("map[string]int")
+	prefix := []string{"", "k", "field."}[c.N(3)]
+	key := func(i int) string { return fmt.Sprintf("%s%06d", prefix, i) }
+	first := model.Val{K: model.VObj}
+	for i := 0; i < n; i++ {
+		first.Keys = append(first.Keys, key(i))
+		first.A = append(first.A, model.Int(int64(i)))
+	}
+	again := model.Val{K: model.VObj}
+	for i, k := 0, 4+c.N(12); i < k; i++ {
+		j := c.N(n)
+		switch c.N(3) {
+		case 0:
+			j = c.N(8) // the oldest entries
+		case 1:
+			j = n - 1 - c.N(8)
+		}
+		again.Keys = append(again.Keys, key(j))
+		again.A = append(again.A, model.Int(int64(1000000+j)))
+	}
+	sc := &Scenario{Capacity: capacity, Format: string(f), Target: te.Name, Scribble: true, Reset: c.Bool(),
+		Note: fmt.Sprintf("document 0 holds the %d distinct keys %q..%q (hex omitted)", n, key(0), key(n-1))}
+	var docs [][]byte
+	for i, v := range []model.Val{first, again, again} {
+		b := write(c, f, v).Bytes
+		if f == model.JSON {
+			b = append(b, '\n')
+		}
+		docs = append(docs, b)
+		if i == 0 {
+			sc.Docs = append(sc.Docs, "")
+		} else {
+			sc.Docs = append(sc.Docs, hex.EncodeToString(b))
+		}
+		sc.Cuts = append(sc.Cuts, nil)
+		x.Alive()
+	}
+	simkit.SetCurrent(sc)
+	st.Eval(1)
+	st.Distinct(simkit.NewDigest().Int(capacity).Int(n).Str(string(f) + prefix).Str(sc.Docs[1]).Sum())
+	st.Fault("chunk-buffer-scribbled-after-write")
+	st.Probe("wide-key-population")
+	ref, refErrs, refPanic := run(sc, docs, te, cd, -1, x)
+	x.Alive()
+	if refPanic != nil {
+		return nil
+	}
+	got, gotErrs, gotPanic := run(sc, docs, te, cd, capacity, x)
+	x.Alive()
+	site := "capacity=wide"
+	if gotPanic != nil {
+		return &simkit.Violation{Kind: "panic", Site: site + gotPanic.Site,
+			Detail: fmt.Sprintf("with EnableKeyCache(%d) and %d distinct keys: %s\n%s", capacity, n, gotPanic.Value, gotPanic.Stack), Scenario: sc}
+	}
+	if len(ref) != len(got) || fmt.Sprint(refErrs) != fmt.Sprint(gotErrs) {
+		return &simkit.Violation{Kind: "value-differs", Site: site,
+			Detail: fmt.Sprintf("%d distinct keys: errors without cache %v, with EnableKeyCache(%d) %v", n, refErrs, capacity, gotErrs), Scenario: sc}
+	}
+	for i := range ref {
+		if !model.DeepEq(ref[i], got[i]) {
+			return &simkit.Violation{Kind: "value-differs", Site: site,
+				Detail: fmt.Sprintf("document %d after %d distinct keys: without cache %s | with EnableKeyCache(%d) %s", i, n, trunc(model.Render(ref[i]), 400), capacity, trunc(model.Render(got[i]), 400)), Scenario: sc}
+		}
+	}
+	return nil
+}
+
 func (Engine) Run(c *simkit.Choices, x *simkit.Ctx) *simkit.Violation {
+	if c.N(100) == 0 {
+		return wide(c, x)
+	}
 	st := x.Stats
 	f := model.Formats[c.N(3)]
 	cd := common.ByName(f)
